@@ -120,7 +120,8 @@ def run(ctx):
     ctx.coq_properties()
     kinds = ["random", "randomzd", "banded", "grid", "blockdiag", "arrow", "chain", "dense", "star", "diagdom"]
     N = {"d": 70, "s": 20, "z": 20, "c": 15} if ctx.quick() else {"d": 900, "s": 250, "z": 250, "c": 200}
-    ncert = 0
+    ncert = 0; nbump = 0
+    adrv = ctx.ocaml_model("alloc")
     for prec in "dszc":
         cases = []
         for k in range(N[prec]):
@@ -130,6 +131,13 @@ def run(ctx):
             exe = drv.build(ctx, prec, flavor)
             sub = cases if flavor == "hooks" else cases[::3]
             res = drv.run_grouped(exe, sub, par=max(1, vf.NCPU // 3))
+            bb, nb = drv.check_bumps(adrv, res)
+            nbump += nb
+            for k, msg in bb.items():
+                if k < 0:
+                    ctx.broken.append(msg)
+                else:
+                    ctx.violation("C01 (%s, %s build): %s" % (prec, flavor, msg), {"flavor": flavor, "case": sub[k]}, key={"kind": "bump_allocator"})
             for c, r in zip(sub, res):
                 ctx.count((prec, flavor, c["kind"], c["n"], tuple(c["rowind"][:40]), tuple(c["vals"][:6]), c["nprocs"], c["stype"]),
                           nontrivial=c["n"] >= 3 and len(c["rowind"]) > c["n"], kind="%s-%s-%s" % (prec, c["stype"], c["kind"]))
@@ -144,6 +152,7 @@ def run(ctx):
                                   {"flavor": flavor, "case": c, "result": {k: v for k, v in r.items() if k not in ("L", "U", "events")}}, key=key)
         ctx.sample({k: cases[0][k] for k in ("prec", "kind", "n", "stype", "nrhs", "nprocs", "colperm", "ienv", "perturb")}, limit=8)
     ctx.cov["correspondence"]["exact_certificates_passed"] = ncert
+    ctx.cov["correspondence"]["bump_allocator_logs_equal_to_model"] = nbump
     ctx.log("certificates passed: %d" % ncert)
     ctx.cov["partial"] += ["64-bit index build (-D_LONGINT) and the OpenMP build are not exercised in the quick tier",
                            "complex precisions: relaxed constant 4*gamma(3n), rational bounds of complex moduli"]
